@@ -434,9 +434,11 @@ def _instances(cT, universe, universe2):
         for U in universe:
             out.append(jt_subst(cT, {tvs[0]: U}))
     else:
-        import itertools
-        for combo in itertools.product(universe2, repeat=len(tvs)):
-            out.append(jt_subst(cT, dict(zip(tvs, combo))))
+        # several type variables: the diagonal instances and one mixed instance
+        for U in universe2:
+            out.append(jt_subst(cT, {tv: U for tv in tvs}))
+        if len(universe2) >= 2:
+            out.append(jt_subst(cT, {tv: universe2[i % len(universe2)] for i, tv in enumerate(tvs)}))
     return out
 
 
@@ -470,7 +472,7 @@ def build_frames(consts, type_arity, universe, universe2):
     # binders
     for nm in BINDERS:
         for dT in have.get(nm, []):
-            for U in universe:
+            for U in universe[:4]:
                 inst = jt_subst(dT, {('tv', 'a'): U})
                 res = jt_strip(inst)[1] if nm in ('all', 'exists', 'exists1') else U
                 for clash in (False, True):
@@ -478,7 +480,7 @@ def build_frames(consts, type_arity, universe, universe2):
                         return app(C(nm, inst), lam(atom_name(U, 0), U, a[0], atom_name(U, 1) if clash else None))
                     frames.append(Frame(nm + ('/clash' if clash else ''), nm, [BOOL], res, b))
     # lambda
-    for U in universe:
+    for U in universe[:4]:
         for R in universe2 + [U]:
             for clash in (False, True):
                 def b(a, U=U, clash=clash):
@@ -486,7 +488,7 @@ def build_frames(consts, type_arity, universe, universe2):
                 frames.append(Frame('lam' + ('/clash' if clash else ''), 'lam', [R], fun(U, R), b))
     # collect
     if 'collect' in have:
-        for U in universe:
+        for U in universe[:4]:
             if not known(tset(U)):
                 continue
             for clash in (False, True):
@@ -531,8 +533,8 @@ def build_frames(consts, type_arity, universe, universe2):
         frames.append(Frame('interval', 'interval', [NAT, NAT], tset(NAT),
                             lambda a: app(C('nat_interval', fun(NAT, NAT, tset(NAT))), *a)))
     if 'fun_upd' in have:
-        for U in universe2:
-            for R in universe2:
+        for U in universe2[:2]:
+            for R in universe2[:2]:
                 T = fun(fun(U, R), U, R, U, R)
                 frames.append(Frame('fun_upd', 'fun_upd', [fun(U, R), U, R], fun(U, R),
                                     lambda a, T=T: app(C('fun_upd', T), *a)))
@@ -648,8 +650,16 @@ def head_label(j):
 
 
 # ---------------------------------------------------------------------------------------------- fresh-process worker
+class WorkerFailed(Exception):
+    pass
+
+
 class Worker:
-    """Client side.  One python process per theory; each request is printed by a forked, never-used child."""
+    """Client side.  One python process per theory; each request is printed by a forked, never-used child.
+    Start-up and requests have their own deadlines (select on the pipe); on any failure the process is killed, never
+    left behind."""
+    START_DEADLINE = 600
+    ASK_DEADLINE = 120
 
     def __init__(self, theory):
         import subprocess
@@ -659,33 +669,56 @@ class Worker:
         env['PYTHONHASHSEED'] = '0'
         env['PYTHONDONTWRITEBYTECODE'] = '1'
         self.theory = theory
-        self.proc = subprocess.Popen([sys.executable, '-m', 'vlib.c07_lib', 'worker', theory], stdin=subprocess.PIPE,
-                                     stdout=subprocess.PIPE, stderr=subprocess.DEVNULL, env=env, cwd=harness.VERIF,
-                                     text=True, bufsize=1)
-        line = self.proc.stdout.readline()
+        self.proc = None
         try:
+            self.proc = subprocess.Popen([sys.executable, '-m', 'vlib.c07_lib', 'worker', theory], stdin=subprocess.PIPE,
+                                         stdout=subprocess.PIPE, stderr=subprocess.DEVNULL, env=env, cwd=harness.VERIF,
+                                         text=True, bufsize=1)
+            line = self._readline(self.START_DEADLINE)
             self.hello = json.loads(line)
-        except Exception:
-            raise RuntimeError('C07 worker for %s did not start: %r' % (theory, line))
-        if not self.hello.get('ready'):
-            raise RuntimeError('C07 worker for %s: %r' % (theory, self.hello))
+            if not self.hello.get('ready'):
+                raise WorkerFailed('C07 worker for %s: %r' % (theory, self.hello))
+        except BaseException:
+            self.close()
+            raise
 
-    def ask(self, req):
-        self.proc.stdin.write(json.dumps(req) + '\n')
-        self.proc.stdin.flush()
+    def _readline(self, deadline):
+        import select
+        r, _, _ = select.select([self.proc.stdout], [], [], deadline)
+        if not r:
+            raise WorkerFailed('C07 worker: no answer within %d s' % deadline)
         line = self.proc.stdout.readline()
         if not line:
-            raise RuntimeError('C07 worker died')
-        return json.loads(line)
+            raise WorkerFailed('C07 worker died')
+        return line
+
+    def ask(self, req):
+        if self.proc is None:
+            raise WorkerFailed('C07 worker is closed')
+        try:
+            self.proc.stdin.write(json.dumps(req) + '\n')
+            self.proc.stdin.flush()
+            return json.loads(self._readline(self.ASK_DEADLINE))
+        except BaseException:
+            # the protocol may be out of step (e.g. a timer fired in between): never reuse this process
+            self.close()
+            raise
 
     def close(self):
+        proc, self.proc = self.proc, None
+        if proc is None:
+            return
         try:
-            self.proc.stdin.close()
-            self.proc.wait(timeout=5)
+            proc.stdin.close()
         except Exception:
+            pass
+        try:
+            proc.wait(timeout=3)
+        except BaseException:
             try:
-                self.proc.kill()
-            except Exception:
+                proc.kill()
+                proc.wait(timeout=10)
+            except BaseException:
                 pass
 
 
@@ -698,6 +731,12 @@ def _worker_main(theory_name):
         import data.real  # noqa  (a fresh process must import data.real before theories built on real)
     basic.load_theory(theory_name)
     thy = theory.thy
+    # modules that the printer imports lazily on its first call (importing is not printing)
+    from logic import logic  # noqa
+    from data import nat, list, set, function, interval, string  # noqa
+    import gc
+    gc.collect()
+    gc.freeze()
     out = sys.stdout
     out.write(json.dumps({'ready': True, 'memo': len(getattr(pprint, 'term_ast', {}))}) + '\n')
     out.flush()
@@ -712,6 +751,7 @@ def _worker_main(theory_name):
             os.close(r)
             res = {}
             try:
+                gc.disable()
                 signal.alarm(20)
                 theory.thy = thy
                 t = codec.term_dec(req['t'])
